@@ -93,6 +93,11 @@ func removeHopByHopHeaders(resp *http.Response) {
 // headers from the revalidated response, excluding hop-by-hop headers
 // and the Content-Length header, as per RFC 9111 §3.2.
 func updateStoredHeaders(storedResp, resp *http.Response) {
+	if resp.Header.Get("Age") == "" {
+		// The age restarts from the validation: an Age received with the first
+		// copy says nothing about the 304 that has just confirmed it.
+		storedResp.Header.Del("Age")
+	}
 	omitted := hopByHopHeaders(resp.Header)
 	omitted["Content-Length"] = struct{}{}
 	for hdr, val := range resp.Header {
